@@ -448,6 +448,26 @@ Definition garc (rx ry rot : Q) (l s : bool) (p : qpt) : gcmd :=
 Definition go_canon (c : gcmd) : gcmd :=
   match c with GA rx ry rot l s p => garc rx ry rot l s p | _ => c end.
 
+(** Path.Close: a final LineTo that lands on the start point of the subpath, or that points straight at it (equidirectional
+    extension), is turned into the Close itself.  [out] holds the commands emitted so far, newest first, each with the pen
+    position before it. *)
+Fixpoint close_absorb (g : list gcmd) (out : list (gcmd * qpt)) (cur start : qpt) : list gcmd :=
+  match g with
+  | [] => rev (map fst out)
+  | c :: t =>
+    match c with
+    | GM p => close_absorb t ((c, cur) :: out) p p
+    | GL p | GQ _ p | GC _ _ p | GA _ _ _ _ _ p => close_absorb t ((c, cur) :: out) p start
+    | GZ =>
+      match out with
+      | (GL p, q) :: out' =>
+          if peq p start || same_dir (psub start p) (psub p q) then close_absorb t ((GZ, q) :: out') start start
+          else close_absorb t ((GZ, cur) :: out) start start
+      | _ => close_absorb t ((GZ, cur) :: out) start start
+      end
+    end
+  end.
+
 Definition go_rect (w h : Q) : list gcmd :=
   if Qeq_bool w 0 || Qeq_bool h 0 then [] else [GM (0, 0); GL (w, 0); GL (w, h); GL (0, h); GZ].
 Definition go_ellipse (rx ry : Q) : list gcmd :=
@@ -473,7 +493,7 @@ Definition go_shape (s : shape) : qpt * list gcmd :=
   | SLine x1 y1 x2 y2 => ((0, 0), [GM (x1, y1); GL (x2, y2)])
   | SPolyline pts => ((0, 0), poly_geom pts false)
   | SPolygon pts => ((0, 0), poly_geom (drop_closing pts) true)
-  | SPath d => ((0, 0), map go_canon (path_geom d))
+  | SPath d => ((0, 0), close_absorb (map go_canon (path_geom d)) [] (0, 0) (0, 0))
   end.
 
 (** svg.setStyling.  [v0] = the order of the tree before the fix: CSS rules first, then ALL attributes in
